@@ -1,6 +1,7 @@
 import NibabelModel.Model.C08
 import NibabelModel.Lemmas.C08_Vol
 import NibabelModel.Lemmas.C08_Trk
+import NibabelModel.Lemmas.C08_Tck
 import NibabelModel.Generated.C08
 /-! Props/C08 — the property theorems for C08 (a truncated file is never read back as different data). -/
 namespace Nb.C08
@@ -77,6 +78,40 @@ theorem volume_prefix_plain (fmt : VolFmt) (img : Img) (wf : img.WF fmt) (um : B
     let r := readSingle fmt um (Src.plain ((writeSingle fmt img).take k))
     Safe r img.data ∧ (r = .ok img.data → img.data = [] ∨ singleOff fmt img + img.data.length ≤ k) :=
   volume_prefix fmt img wf um k false
+
+/-- **volume_tail_prefix.**  A partial read through the array proxy (`img.dataobj[..., -1]`: the data
+    bytes from `a` on, fetched by `fileslice`/`read_segments` as one segment) from any prefix source
+    raises or returns exactly that part of the written data. -/
+theorem volume_tail_prefix (fmt : VolFmt) (img : Img) (wf : img.WF fmt) (a : Nat) (ha : a ≤ img.data.length)
+    (m : Nat) (st : Bool) :
+    Safe (readTailSingle fmt ⟨(writeSingle fmt img).take m, st⟩ a) (img.data.drop a) := by
+  simp only [readTailSingle]
+  split
+  · rename_i e _; exact Or.inr ⟨e, rfl⟩
+  · rename_i n off hh
+    have hfile : writeSingle fmt img =
+        hdrBlock img (singleOff fmt img) ++ (midBytes fmt img ++ img.data ++ img.footer) := by
+      simp [writeSingle, List.append_assoc]
+    have hh' := hh
+    rw [hfile] at hh'
+    obtain ⟨hn, hoff, _⟩ := header_fields fmt img _ _ true m st n off wf.hdr wf.dlen wf.off hh'
+    have hoff' : off = singleOff fmt img := by
+      rw [hoff]
+      cases hfo : fmt.fixedOff with
+      | none => rfl
+      | some o => simpa using wf.fixed o hfo
+    have hpre : (hdrBlock img (singleOff fmt img) ++ midBytes fmt img ++ img.data.take a).length
+        = singleOff fmt img + a := by
+      simp [hdrBlock, leN_length, singleOff]; omega
+    have hfile2 : writeSingle fmt img =
+        (hdrBlock img (singleOff fmt img) ++ midBytes fmt img ++ img.data.take a) ++ img.data.drop a
+          ++ img.footer := by
+      simp [writeSingle, List.append_assoc]
+    have := segRead_prefix (hdrBlock img (singleOff fmt img) ++ midBytes fmt img ++ img.data.take a)
+      (img.data.drop a) img.footer m st
+    rw [hpre, List.length_drop, ← hfile2] at this
+    rw [hn, hoff']
+    exact this
 
 /-! ### pairs (NIfTI-1/2 `.hdr/.img`, Analyze, SPM99, SPM2) -/
 
@@ -256,6 +291,59 @@ theorem trk_zero_count_header_cut :
     trkRead (Src.plain ((trkWrite t).take 999)) = .ok (trkData t) ∧
     trkRead (Src.plain ((trkWrite t).take 997)) = .error .bad := by
   decide +kernel
+
+/-! ### TCK -/
+
+/- FULL STATEMENT (design `tck_prefix`), proved below only in part:
+
+     theorem tck_prefix (t : Tck) (hlines : every header line is free of `\n`, starts with neither
+         whitespace nor 'E') (hl : StreamsWF t.streams) (m : Nat) (st : Bool)
+         (hm : m < (tckWrite t).length) : ∃ e, tckRead ⟨(tckWrite t).take m, st⟩ = .error e
+
+   Proved: the DATA part at full strength (`tckData_prefix`: whatever strict prefix of the float32 body
+   follows the header — cut inside a float, inside a triple, at a triple or streamline boundary — `_read`
+   raises, because the leftover is not the single `inf` triple; unbounded in the number and length of the
+   streamlines), every strict (decompressor-error) source, and the composition with the header part.
+   Missing: the general proof that the text-header line scan of a truncated file cannot produce an offset
+   other than the true header length (`ScanOk`; needs the decimal print/parse round trip and the
+   self-referential offset computation of `_write_header`).  `ScanOk` is decidable, is checked below for
+   every cut of an example file, and is exercised by the correspondence on every generated prefix. -/
+
+/-- **tck_prefix_partial.**  Streamlines made of 12-byte triples none of which is all-`inf` (finite
+    coordinates in particular; empty streamlines allowed): every strict prefix of the written file for
+    which the header scan is sound (`ScanOk`, see above) makes the reader raise — plain or behind a
+    decompressor. -/
+theorem tck_prefix_partial (t : Tck) (hl : StreamsWF t.streams) (m : Nat) (st : Bool)
+    (hm : m < (tckWrite t).length) (hscan : ScanOk t m) :
+    ∃ e, tckRead ⟨(tckWrite t).take m, st⟩ = .error e :=
+  tckRead_prefix_of_scan t hl m st hm hscan
+
+/-- **tck_data_prefix.**  The data part alone, no side condition: after ANY bytes `pre`, a strict
+    prefix of the body read from offset `|pre|` raises. -/
+theorem tck_data_prefix (l : List (List Bytes)) (hl : StreamsWF l) (pre : Bytes) (j : Nat)
+    (hj : j < (tckBody l).length) (st : Bool) :
+    ∃ e, tckData ⟨pre ++ (tckBody l).take j, st⟩ pre.length = .error e :=
+  tckData_prefix l hl pre j hj st
+
+/-- "count: 0000000002", "datatype: Float32LE"; two streamlines of 2 and 1 points -/
+def tckEx : Tck :=
+  { lines := [[99, 111, 117, 110, 116, 58, 32, 48, 48, 48, 48, 48, 48, 48, 48, 48, 50],
+              [100, 97, 116, 97, 116, 121, 112, 101, 58, 32, 70, 108, 111, 97, 116, 51, 50, 76, 69]],
+    streams := [[[0, 0, 128, 63, 0, 0, 0, 64, 0, 0, 64, 64], [0, 0, 128, 64, 0, 0, 160, 64, 0, 0, 192, 64]],
+                [[0, 0, 0, 0, 0, 0, 128, 191, 0, 0, 0, 63]]] }
+
+/-- the hypotheses hold for the example, for EVERY cut; its complete file reads back; and (the whole
+    property on the example) every strict prefix raises -/
+example : StreamsWF tckEx.streams := by
+  intro s hs t ht
+  simp only [tckEx, List.mem_cons, List.not_mem_nil, or_false] at hs
+  rcases hs with h | h <;> subst h <;> simp only [List.mem_cons, List.not_mem_nil, or_false] at ht
+  · rcases ht with h | h <;> subst h <;> decide
+  · subst ht; decide
+
+example : ∀ m, m < (tckWrite tckEx).length → ScanOk tckEx m := by decide +kernel
+
+example : tckRead (Src.plain (tckWrite tckEx)) = .ok tckEx.streams := by decide +kernel
 
 /-! ### XML formats: through the expat contract only -/
 
